@@ -67,12 +67,14 @@ Theorem c15_layer_budget_guard_pinned : layer_budget_guards = ["budget < 0"%stri
 Proof. reflexivity. Qed.
 Print Assumptions c15_layer_budget_guard_pinned.
 
-(* sortTarHeaders on a file list with a directory entry named "./": the entry is
-   its own child, the recursion never ends whatever the fuel (in Go: stack overflow) *)
-Theorem c15_sort_headers_self_child_refuted : forall fuel,
-  sort_children fuel (dir_children [dot_dir]) (all_headers [dot_dir]) ["."%string] = OutOfFuel.
-Proof. exact sort_children_dot_diverges. Qed.
-Print Assumptions c15_sort_headers_self_child_refuted.
+(* sortTarHeaders before fix f716198 (HYPOTHETICAL: [sort_headers_raw] is not the code any more): on a file
+   list with a directory entry named "./" the entry was its own child and the recursion never ended whatever
+   the fuel (in Go: stack overflow; was finding C15-F4). The code today: c15_sort_headers_fix_terminates. *)
+Theorem c15_sort_headers_before_fix_hypothetical :
+  (forall fuel, sort_children fuel (dir_children [dot_dir]) (all_headers [dot_dir]) ["."%string] = OutOfFuel) /\
+  sort_headers_raw [dot_dir] = OutOfFuel /\ sort_headers [dot_dir] = Ok [].
+Proof. split; [exact sort_children_dot_diverges|split; vm_compute; reflexivity]. Qed.
+Print Assumptions c15_sort_headers_before_fix_hypothetical.
 
 (* ======================================================================== *)
 (* Session 3: more readers inside the model (Model/Parsers.v, second half).   *)
@@ -198,33 +200,30 @@ Print Assumptions c15_long_line_is_error_release.
 Example c15_too_long_satisfiable : forall max, (1 <= max)%N -> too_long max (srepeat "x" (N.to_nat max)).
 Proof. exact too_long_example. Qed.
 
-(* ---- no loop without consuming input: the only fuel in C15's models is the one of
-   sortTarHeaders. On EVERY header list without an entry whose cleaned name is ".", and for
-   every order in which Go ranges over the map, the fuel S (S (len headers)) suffices. The
-   excluded shape is exactly c15_sort_headers_self_child_refuted (finding C15-F4). ------------- *)
-Theorem c15_consumes_sort_headers : forall hs ord,
-  (forall h, In h hs -> clean (h_name h) <> "."%string) -> Returns (sort_headers_ord ord hs).
-Proof. intros hs ord H. exact (sort_headers_ord_returns hs H ord). Qed.
+(* ---- no loop without consuming input: sortTarHeaders (fix f716198: an entry whose cleaned name is "." is
+   skipped). On EVERY header list — duplicates, orphans, files used as directories, "./" entries included —
+   and for every order in which Go ranges over the map, the fuel S (S (len kept headers)) suffices. ------------- *)
+Theorem c15_consumes_sort_headers : forall hs ord, Returns (sort_headers_ord ord hs).
+Proof. exact sort_headers_ord_returns. Qed.
 Print Assumptions c15_consumes_sort_headers.
-(* the proposed repair (fixes/C15-F4.patch: skip entries whose cleaned name is "."):
-   ends on every list, and equals today's function wherever today's function is safe *)
-Theorem c15_sort_headers_fix_terminates : forall hs, Returns (sort_headers_fixed hs).
-Proof. exact sort_headers_fixed_returns. Qed.
+Theorem c15_sort_headers_fix_terminates : forall hs, Returns (sort_headers hs).
+Proof. exact sort_headers_returns. Qed.
 Print Assumptions c15_sort_headers_fix_terminates.
+(* the fix changed nothing on the lists the code handled before it (no entry that cleans to ".") *)
 Theorem c15_sort_headers_fix_conservative : forall hs,
-  (forall h, In h hs -> clean (h_name h) <> "."%string) -> sort_headers_fixed hs = sort_headers hs.
-Proof. exact sort_headers_fixed_same. Qed.
+  (forall h, In h hs -> clean (h_name h) <> "."%string) -> sort_headers hs = sort_headers_raw hs.
+Proof. exact sort_headers_raw_same. Qed.
 Print Assumptions c15_sort_headers_fix_conservative.
 
-(* ---- ImageConfiguration.Load: the include chain. A configuration that includes itself, or
-   two that include each other, are loaded without end (finding C15-F6; in Go: the stack grows
-   until fatal error: stack overflow) ---------------------------------------------------------- *)
-Theorem c15_include_cycle_refuted :
+(* ---- ImageConfiguration.Load: the include chain, abstract form (a file = its include field). Before fix
+   43ae291 (HYPOTHETICAL: [load_chain] is not the code any more) a configuration that includes itself, or two
+   that include each other, were loaded without end (was finding C15-F6). The code today: the next two theorems. *)
+Theorem c15_include_before_fix_hypothetical :
   (forall fuel, load_chain fuel [("apko.yaml", "apko.yaml")]%string "apko.yaml" = OutOfFuel) /\
   (forall fuel, load_chain fuel [("a", "b"); ("b", "a")]%string "a" = OutOfFuel).
 Proof. split; [intro; apply load_chain_self_diverges; discriminate|intro fuel; exact (proj1 (load_chain_two_diverges fuel))]. Qed.
-Print Assumptions c15_include_cycle_refuted.
-(* the proposed repair (fixes/C15-F6.patch: refuse a path that is already being loaded) ends on
+Print Assumptions c15_include_before_fix_hypothetical.
+(* the code since fix 43ae291 (refuse a path that is already being loaded) ends on
    every set of files, with one step per file, and whenever it returns a chain today's code
    returns the same one; conversely it returns every chain without repetition that today's code returns *)
 Theorem c15_include_fix_terminates : forall fs path, Returns (load_chain_fixed (S (List.length fs)) fs [] path).
@@ -242,51 +241,68 @@ Print Assumptions c15_include_fix_conservative.
 (* Session 4 (Model/Parsers2.v).                                              *)
 
 (* ---- ImageConfiguration.Load on a file tree, with paths.ResolvePath (the requested path itself if it
-   exists seen from the working directory, else the first include path under which it does). One file
-   reached through different spellings is one file: whenever the resolved paths lead back to one of
-   themselves — whatever the spellings along the way — the loader never returns (finding C15-F6). The
-   statement is about ANY resolver and ANY way of reading a file, the file tree being one instance. *)
-Theorem c15_include_cycle_any_spelling : forall resolve content rp rq,
-  clos_refl_trans _ (rnext resolve content) rp rq -> clos_trans _ (rnext resolve content) rq rq ->
-  forall fuel, chain_r resolve content fuel rp = OutOfFuel.
-Proof. exact chain_r_reach_cycle_diverges. Qed.
-Print Assumptions c15_include_cycle_any_spelling.
-(* witnesses on file trees: a.yaml -> ./a.yaml; a.yaml -> sub/../a.yaml; a file found through the include
-   path that includes its own base name; a.yaml -> ./b.yaml -> sub/../a.yaml; relative -> absolute -> relative *)
-Theorem c15_include_cycle_spellings_refuted :
-  (forall fuel, load_config fuel fs_dot [] "a.yaml" = OutOfFuel) /\
-  (forall fuel, load_config fuel fs_updown [] "a.yaml" = OutOfFuel) /\
-  (forall fuel, load_config fuel fs_incpath ["inc"%string] "inc/a.yaml" = OutOfFuel) /\
-  (forall fuel, load_config fuel fs_two [] "a.yaml" = OutOfFuel) /\
-  (forall fuel, load_config fuel fs_abs [] "a.yaml" = OutOfFuel).
-Proof.
-  exact (conj spelling_dot_diverges (conj spelling_updown_diverges (conj spelling_incpath_diverges (conj spelling_two_diverges spelling_abs_diverges)))).
-Qed.
-Print Assumptions c15_include_cycle_spellings_refuted.
-(* the chain of session 3 (a file = its include field, a path = itself) is the instance of the general
-   chain in which every path resolves to itself: c15_include_cycle_refuted lies inside the envelope above *)
-Theorem c15_include_abstract_is_instance : forall fs fuel p,
-  load_chain fuel fs p = chain_r (fun q => Some q) (fun q => match alookup q fs with Some inc => Some (q, inc) | None => None end) fuel p.
-Proof. exact load_chain_is_chain_r. Qed.
-Print Assumptions c15_include_abstract_is_instance.
-(* bounded work without a cycle: whatever today's loader returns with any fuel, it returns with one unit
-   of fuel per file of the tree plus two — a chain that ends loads at most |files| + 1 files *)
+   exists seen from the working directory, else the first include path under which it does) and, since fix
+   43ae291, the list of resolved paths being loaded: [load_config] is the code today. It returns — a result or
+   an error — on EVERY tree, every list of include paths and every request, within one unit of fuel per file
+   plus two (the fix compares resolved paths AS TEXT: a cycle through k spellings of one file is refused after
+   at most k more loads). *)
+Theorem c15_include_load_terminates_on_trees : forall fs incs p,
+  Returns (load_config (S (S (List.length (cf_files fs)))) fs incs p).
+Proof. exact load_config_returns. Qed.
+Print Assumptions c15_include_load_terminates_on_trees.
+(* bounded work: whatever the loader returns with any fuel it returns with fuel |files| + 2 *)
 Theorem c15_include_chain_fuel_bound : forall fs incs p fuel r,
   load_config fuel fs incs p = r -> r <> OutOfFuel -> load_config (S (S (List.length (cf_files fs)))) fs incs p = r.
 Proof. exact load_config_bound. Qed.
 Print Assumptions c15_include_chain_fuel_bound.
-(* the repair (fixes/C15-F6.patch compares RESOLVED PATHS AS TEXT): it ends on every tree, every include
-   path list and every request — a cycle through k spellings is refused after at most k extra files —
-   and it changes nothing where today's loader returns *)
-Theorem c15_include_fix_terminates_on_trees : forall fs incs p,
-  Returns (load_config_fixed (S (S (List.length (cf_files fs)))) fs incs p).
-Proof. exact load_config_fixed_returns. Qed.
-Print Assumptions c15_include_fix_terminates_on_trees.
+(* a request from which the resolved paths lead back to one of themselves — whatever the spellings along the
+   way — is answered with an ERROR *)
+Theorem c15_include_cycle_is_error : forall fs incs p rp rq,
+  resolve_path fs incs p = Some rp ->
+  clos_refl_trans _ (rnext (resolve_path fs incs) (file_content fs)) rp rq ->
+  clos_trans _ (rnext (resolve_path fs incs) (file_content fs)) rq rq ->
+  load_config (S (S (List.length (cf_files fs)))) fs incs p = Err.
+Proof. exact load_config_cycle_is_error. Qed.
+Print Assumptions c15_include_cycle_is_error.
+(* on the spelled trees (a.yaml -> ./a.yaml; a.yaml -> sub/../a.yaml; a file found through the include path that
+   includes its own base name; a.yaml -> ./b.yaml -> sub/../a.yaml; relative -> absolute -> relative): an error,
+   replayed on real trees (stage includes) *)
+Theorem c15_include_cycle_spellings_refused :
+  load_config 3 fs_dot [] "a.yaml" = Err /\ load_config 3 fs_updown [] "a.yaml" = Err /\
+  load_config 3 fs_incpath ["inc"%string] "inc/a.yaml" = Err /\ load_config 4 fs_two [] "a.yaml" = Err /\
+  load_config 4 fs_abs [] "a.yaml" = Err.
+Proof. vm_compute. repeat split. Qed.
+Print Assumptions c15_include_cycle_spellings_refused.
+(* the fix changed nothing where the loader returned before it (result or error, same fuel), and every
+   configuration it returns the loader before it returned as well *)
 Theorem c15_include_fix_conservative_on_trees : forall fs incs p fuel,
-  (forall r, load_config fuel fs incs p = r -> r <> OutOfFuel -> load_config_fixed fuel fs incs p = r) /\
-  (forall l, load_config_fixed fuel fs incs p = Ok l -> load_config fuel fs incs p = Ok l).
-Proof. intros. split; [intros r; apply load_config_fixed_conservative|intros l; apply load_config_fixed_ok]. Qed.
+  (forall r, load_config_unfixed fuel fs incs p = r -> r <> OutOfFuel -> load_config fuel fs incs p = r) /\
+  (forall l, load_config fuel fs incs p = Ok l -> load_config_unfixed fuel fs incs p = Ok l).
+Proof. intros. split; [intros r; apply load_config_conservative|intros l; apply load_config_ok]. Qed.
 Print Assumptions c15_include_fix_conservative_on_trees.
+(* HYPOTHETICAL (the loader before fix 43ae291, [chain_r] / [load_config_unfixed]; was finding C15-F6): for ANY
+   resolver and ANY way of reading a file, a resolved path from which a cycle is reached was loaded without
+   end, the spelled trees being instances; and session 3's abstract chain is the instance "every path resolves
+   to itself" *)
+Theorem c15_include_before_fix_any_spelling_hypothetical : forall resolve content rp rq,
+  clos_refl_trans _ (rnext resolve content) rp rq -> clos_trans _ (rnext resolve content) rq rq ->
+  forall fuel, chain_r resolve content fuel rp = OutOfFuel.
+Proof. exact chain_r_reach_cycle_diverges. Qed.
+Print Assumptions c15_include_before_fix_any_spelling_hypothetical.
+Theorem c15_include_before_fix_spellings_hypothetical :
+  (forall fuel, load_config_unfixed fuel fs_dot [] "a.yaml" = OutOfFuel) /\
+  (forall fuel, load_config_unfixed fuel fs_updown [] "a.yaml" = OutOfFuel) /\
+  (forall fuel, load_config_unfixed fuel fs_incpath ["inc"%string] "inc/a.yaml" = OutOfFuel) /\
+  (forall fuel, load_config_unfixed fuel fs_two [] "a.yaml" = OutOfFuel) /\
+  (forall fuel, load_config_unfixed fuel fs_abs [] "a.yaml" = OutOfFuel).
+Proof.
+  exact (conj spelling_dot_diverges (conj spelling_updown_diverges (conj spelling_incpath_diverges (conj spelling_two_diverges spelling_abs_diverges)))).
+Qed.
+Print Assumptions c15_include_before_fix_spellings_hypothetical.
+Theorem c15_include_abstract_is_instance : forall fs fuel p,
+  load_chain fuel fs p = chain_r (fun q => Some q) (fun q => match alookup q fs with Some inc => Some (q, inc) | None => None end) fuel p.
+Proof. exact load_chain_is_chain_r. Qed.
+Print Assumptions c15_include_abstract_is_instance.
 
 (* ---- the sites that were exploration-only: index < length at every one, for every input ------------ *)
 Theorem c15_no_panic_alpine_version : forall matched, Returns (alpine_version_skel matched).
@@ -379,7 +395,8 @@ Example c15_load_config_example :
     ["inc"%string] "./a.yaml" = Ok ["a"; "b"; "c"]%string /\
   (* the kernel, unlike path.Clean, wants every directory on the way to exist *)
   load_config 5 (mkCfs ["w"] w_dirs [(["w"; "a.yaml"], ("a", Some "missing/../a.yaml"))])%string [] "a.yaml" = Err /\
-  load_config_fixed 3 fs_dot [] "a.yaml" = Err /\ load_config_fixed 4 fs_two [] "a.yaml" = Err.
+  load_config 3 fs_dot [] "a.yaml" = Err /\ load_config 4 fs_two [] "a.yaml" = Err /\
+  load_config_unfixed 5 (mkCfs ["w"] w_dirs [(["w"; "a.yaml"], ("a", Some "b.yaml")); (["w"; "b.yaml"], ("b", Some ""))])%string [] "a.yaml" = Ok ["a"; "b"]%string.
 Proof. vm_compute. repeat split. Qed.
 Example c15_sites2_examples :
   control_values (fun k => k =? "datahash")%string ("pkgname = a" +++ s_nl +++ "datahash = abc" +++ s_nl +++ "x=y=z" +++ s_nl +++ "datahash=" +++ s_nl) = Ok [("datahash", "abc"); ("datahash", "")]%string /\
@@ -406,7 +423,7 @@ Example c15_expand_examples :
   expand_select 1 = Err /\ expand_select (-1) = Err /\ expand_select 4 = Err.
 Proof. vm_compute. repeat split. Qed.
 Example c15_sort_fix_example :
-  sort_headers_fixed [dot_dir; mkHdr "./usr/" true 493 0 0 ""; mkHdr "./usr/x" false 420 0 0 ""] =
+  sort_headers [dot_dir; mkHdr "./usr/" true 493 0 0 ""; mkHdr "./usr/x" false 420 0 0 ""] =
   Ok [mkHdr "./usr/" true 493 0 0 ""; mkHdr "./usr/x" false 420 0 0 ""].
 Proof. vm_compute. reflexivity. Qed.
 Example c15_include_chain_example :
